@@ -10,13 +10,23 @@ Inductive sid := SP (i : Z) | SC | ST (j : Z).
 Definition tid_of (x : sid) : tid :=
   match x with SP i => TPoster (Z.to_nat i) | SC => TConsumer | ST j => TPause (Z.to_nat j) end.
 
+(* a programme entry as the harness writes it: one message, or a MessageBatch - ONE PostUserMessage
+   call that posts each part as a message of its own and then the batch itself (actorex/mailbox
+   PostUserMessage recursion): to the mailbox the same as posting them one after the other *)
+Inductive pmsgx := X (m : pmsg) | XBatch (parts : list Z) (z : Z).
+
+Definition expandx (x : pmsgx) : list pmsg :=
+  match x with X m => [m] | XBatch ps z => map PUser ps ++ [PUser z] end.
+
 Record ops := mkOps {
-  o_progs : list (list pmsg);
+  o_xprogs : list (list pmsgx);
   o_oracle : list bool;
   o_sched : list sid;
   o_throughput : Z;   (* what the dispatcher answers to Throughput(): the mailbox only resets a counter
                          with it, so the model - and every theorem - is independent of it *)
 }.
+
+Definition o_progs (o : ops) : list (list pmsg) := map (flat_map expandx) (o_xprogs o).
 
 (* shared words after a step: userMessages, sysMessages, schedulerStatus=running,
    smoothPaused, suspended, tasks waiting in the dispatcher, user queue length,
